@@ -99,6 +99,12 @@ pub enum Op {
     },
     Connect,
     SetAppIin(u8),
+    /// `OutstationHandle::set_decode_level` (everything / nothing): a message on the outstation task's channel, which wakes the
+    /// session loop wherever it is waiting
+    SetDecodeLevel(bool),
+    /// cancellation fault for the next `Request`: its link frame arrives in two pieces (cut after this many octets) and between
+    /// them a channel message wakes the outstation task, which drops and recreates its pending read
+    SplitNext(usize),
     LinkStatusRequest,
     /// raw octets on the wire (not framed)
     WireBytes(Vec<u8>),
@@ -362,6 +368,7 @@ pub async fn drive(sim: &Sim, case: &SoutCase, oracle: &mut dyn Oracle) -> RunSu
     let mut cb_seen = 0usize;
     let mut link_seen = 0usize;
     let mut violation = None;
+    let mut split_next: Option<usize> = None;
 
     // a synthetic step 0 captures what happens right after the connection (e.g. the null unsolicited response)
     let mut ops: Vec<Op> = Vec::with_capacity(case.script.len() + 1);
@@ -438,7 +445,29 @@ pub async fn drive(sim: &Sim, case: &SoutCase, oracle: &mut dyn Oracle) -> RunSu
                 let bytes = refapp::build_request(ctrl, *func, headers);
                 let src = resolve_src(&world.cfg, from);
                 let dest = resolve_dest(&world.cfg, to);
-                send_fragment(sim, &mut node, &mut peer, &mut world, &bytes, src, dest);
+                match split_next.take() {
+                    Some(cut) if node.connected => {
+                        let wire = peer.encode_fragment(src, dest, &bytes);
+                        let cut = cut.clamp(1, wire.len().saturating_sub(1).max(1));
+                        io::chan_push(&node.to_out, sim.now_ms(), wire[..cut].to_vec());
+                        sim.settle().await;
+                        let mut h = node.handle.clone();
+                        let level = node.cfg.to_config().decode_level;
+                        // two ways of waking the session loop: a message on its channel and the database change notification
+                        // (an empty transaction changes nothing and notifies all the same)
+                        sim.spawn("wake-while-frame-is-partial", async move {
+                            let _ = h.set_decode_level(level).await;
+                        });
+                        sim.settle().await;
+                        node.handle.transaction(|_| ());
+                        sim.settle().await;
+                        io::chan_push(&node.to_out, sim.now_ms(), wire[cut..].to_vec());
+                        world.last_request = Some((bytes.to_vec(), src, dest));
+                        sim.count("fault.read_future_cancelled");
+                        sim.log(|| format!("peer({}) -> {} fragment in two pieces (cut {}) with a wake-up in between: {}", src, dest, cut, io::hex(&bytes)));
+                    }
+                    _ => send_fragment(sim, &mut node, &mut peer, &mut world, &bytes, src, dest),
+                }
                 sent = Some(SentFragment {
                     bytes,
                     src,
@@ -446,6 +475,7 @@ pub async fn drive(sim: &Sim, case: &SoutCase, oracle: &mut dyn Oracle) -> RunSu
                     t_ms: sim.now_ms(),
                 });
             }
+            Op::SplitNext(cut) => split_next = Some(*cut),
             Op::Raw { bytes, from, to } => {
                 let src = resolve_src(&world.cfg, from);
                 let dest = resolve_dest(&world.cfg, to);
@@ -569,6 +599,23 @@ pub async fn drive(sim: &Sim, case: &SoutCase, oracle: &mut dyn Oracle) -> RunSu
                 r.app_iin.local_control = bits & 2 != 0;
                 r.app_iin.device_trouble = bits & 4 != 0;
                 r.app_iin.config_corrupt = bits & 8 != 0;
+            }
+            Op::SetDecodeLevel(all) => {
+                let mut h = node.handle.clone();
+                let level = if *all {
+                    crate::decode::DecodeLevel::new(
+                        crate::decode::AppDecodeLevel::ObjectValues,
+                        crate::decode::TransportDecodeLevel::Payload,
+                        crate::decode::LinkDecodeLevel::Payload,
+                        crate::decode::PhysDecodeLevel::Data,
+                    )
+                } else {
+                    crate::decode::DecodeLevel::nothing()
+                };
+                sim.spawn("set-decode-level", async move {
+                    let _ = h.set_decode_level(level).await;
+                });
+                sim.count("fault.channel_message_while_waiting");
             }
             Op::LinkStatusRequest => {
                 let wire = peer
